@@ -10,6 +10,7 @@ import (
 	"errors"
 	"fmt"
 	"os"
+	"sigs.k8s.io/controller-runtime/pkg/client/apiutil"
 	"sort"
 	"strconv"
 	"strings"
@@ -190,7 +191,7 @@ type Scn struct {
 }
 
 // MapErrClasses are the concrete errors a failing REST-mapper lookup is answered with.
-var MapErrClasses = []string{"Discovery", "Timeout", "ServiceUnavailable", "Plain"}
+var MapErrClasses = []string{"Discovery", "ResourceDiscovery", "Timeout", "ServiceUnavailable", "Plain"}
 
 // MapperError builds the error of a failing REST-mapper lookup: anything but a NoMatch error.
 func MapperError(class string, gk schema.GroupKind) error {
@@ -201,6 +202,12 @@ func MapperError(class string, gk schema.GroupKind) error {
 		return apierrors.NewServiceUnavailable("scripted discovery outage")
 	case "Plain":
 		return fmt.Errorf("scripted: discovery of %s failed", gk)
+	case "ResourceDiscovery":
+		// controller-runtime's lazy REST mapper: the discovery round for the group's versions failed (503, timeout)
+		e := apiutil.ErrResourceDiscoveryFailed{
+			{Group: gk.Group, Version: "v1"}: apierrors.NewServiceUnavailable("the server is currently unable to handle the request"),
+		}
+		return &e
 	}
 	// what the (lazy) discovery REST mapper answers while an aggregated API service is down
 	return &discovery.ErrGroupDiscoveryFailed{Groups: map[schema.GroupVersion]error{
